@@ -1,6 +1,7 @@
 (* C05 — @memoize never changes what is accepted or the tree that is returned. *)
 From PegV Require Import Utf8 State Terminals Syntax Fields Literals Model Inv Memo MemoEq Spec Sim Conform ConformX Extracted.
 From PegV Require Import MemoTot.
+From PegV Require LocalConform.
 
 Theorem C05_facts :
   Extracted.file_codegen_src_rule_rs = true /\ Extracted.file_codegen_src_grammar_mod_rs = true /\
@@ -136,3 +137,29 @@ Proof.
   exact (memoize_keeps_termination ustate scfg tcfg fcfg rcfg hk g input H1 H2 H3 n m rule_name u u').
 Qed.
 Print Assumptions C05_keeps_termination.
+
+(* ---- @memoize beside @leftrec ------------------------------------------------------------------------
+   "... rules that are not part of a left-recursive cycle": in a grammar WITH @leftrec rules, for every rule
+   from which no @leftrec rule is reachable (a set of names closed under reference without @leftrec rule;
+   memoized rules allowed: a memoized number or term rule of a calculator, say), the parse with the @memoize
+   markers and the parse without them accept alike, return the same tree and stop at the same offset, for any
+   two bounds.  C05_transparent - which speaks about grammars without any @leftrec rule - transported through
+   locality (Local.v: such rules do exactly the same in g and in g with the @leftrec markers removed). *)
+Theorem C05_transparent_beside_leftrec :
+  forall (ustate : Type) (scfg : state_cfg) (tcfg : term_cfg) (fcfg : fields_cfg) (rcfg : rule_cfg)
+         (hk : hooks ustate) (g : grammar) (nolr : name -> bool) (input : bytes),
+    LocalConform.no_leftrec_reachable g nolr ->
+    (forall f v u u', fst (h_check hk f v u) = fst (h_check hk f v u')) ->
+    (forall f bs u u', fst (h_extern hk f bs u) = fst (h_extern hk f bs u')) ->
+    forall n m rule_name u u', nolr rule_name = true ->
+      same_outcome (fst (m_parse ustate scfg tcfg fcfg rcfg hk g n rule_name input u))
+                   (fst (m_parse ustate scfg tcfg fcfg rcfg hk (strip g) m rule_name input u')).
+Proof.
+  intros ustate scfg tcfg fcfg rcfg hk g nolr input N H2 H3 n m rule_name u u' L.
+  pose proof (LocalConform.memoize_transparent_beside_leftrec ustate scfg tcfg fcfg rcfg hk g nolr input N H2 H3 n m rule_name u u' L) as W.
+  destruct (fst (m_parse ustate scfg tcfg fcfg rcfg hk g n rule_name input u)) as [v1 s1|e1|p1|];
+    destruct (fst (m_parse ustate scfg tcfg fcfg rcfg hk (strip g) m rule_name input u')) as [v2 s2|e2|p2|];
+    cbn in *; try exact I; try contradiction; try (match goal with |- @eq panic_site _ _ => assumption end).
+  destruct W as [-> [R1 R2]]. auto.
+Qed.
+Print Assumptions C05_transparent_beside_leftrec.
